@@ -165,6 +165,57 @@ def check_finish_handshake(ctx, wf) -> None:
                "would find a component already in a final state)", construct="controllerState = finalState <- not RUNNING")
 
 
+def check_observed_before_stopped(ctx, ctl) -> None:
+    rule = "C02.R11-observed-before-stopped"
+    fc = ctl.func("Controller.finishedCheck")
+    cfg = CFG(fc)
+    stops = [n for n in cfg.nodes if n.kind == "stmt" and n.ast is not None and any(last_attr(c) == "_stopComponents" for c in own_calls(n.ast))]
+    ctx.floor(rule, len(stops), 1, "_stopComponents calls in finishedCheck")
+    for sn in stops:
+        call = [c for c in own_calls(sn.ast) if last_attr(c) == "_stopComponents"][0]
+        coll = call.args[0].id if call.args and isinstance(call.args[0], ast.Name) else None
+        loops_ = [n for n in source.walk_own(fc) if isinstance(n, ast.For) and isinstance(n.iter, ast.Name) and n.iter.id == coll
+                  and any(isinstance(c, ast.Call) and last_attr(c) == "_fake_finish_with_state" for c in ast.walk(n))]
+        lnodes = [n for n in cfg.nodes if n.kind == "for" and any(n.ast is lp for lp in loops_)]
+        ok = bool(lnodes) and cfg.every_path_to_passes(sn, gates=lnodes)
+        ctx.ob(rule, call, ok,
+               "before the components of '%s' are stopped, a loop over the same collection subscribes an observer to the unobserved ones" % coll if ok else
+               "_stopComponents(%s) is not preceded by a loop over %s that fake-finishes the components nobody observes" % (coll, coll),
+               construct="_stopComponents(%s) <- loop with _fake_finish_with_state over %s" % (coll, coll))
+        for lp in loops_:
+            var = lp.target.id if isinstance(lp.target, ast.Name) else None
+            ffs = [n for n in cfg.nodes if n.kind == "stmt" and n.ast is not None and any(n.ast is x for x in ast.walk(lp))
+                   and any(last_attr(c) == "_fake_finish_with_state" for c in own_calls(n.ast))]
+
+            def allowed(t: ast.AST) -> bool:
+                cp = match.compare_parts(t)
+                if cp and isinstance(cp[1], (ast.In, ast.NotIn)) and isinstance(cp[0], ast.Name) and cp[0].id == var \
+                        and (dotted(cp[2]) or "").endswith("comp_staged_in"):
+                    return True
+                if any(isinstance(x, ast.Attribute) and x.attr == "finishCalled" for x in ast.walk(t)) and not any(isinstance(x, ast.Call) for x in ast.walk(t)):
+                    return True
+                return False
+            member = match.test_nodes(cfg, lambda t: ("T" if isinstance(match.compare_parts(t)[1], ast.NotIn) else "F")
+                                      if (match.compare_parts(t) and isinstance(match.compare_parts(t)[1], (ast.In, ast.NotIn))
+                                          and isinstance(match.compare_parts(t)[0], ast.Name) and match.compare_parts(t)[0].id == var
+                                          and (dotted(match.compare_parts(t)[2]) or "").endswith("comp_staged_in")) else None)
+            for f_ in ffs:
+                extra = []
+                for tn in cfg.nodes:
+                    if tn.kind != "test" or tn.ast is None or not any(tn.ast is x for x in ast.walk(lp)) or allowed(tn.ast):
+                        continue
+                    if any(match.only_via_edges(cfg, f_, [(tn, lab)]) for lab in ("T", "F")):
+                        extra.append(tn)
+                ok = bool(member) and match.only_via_edges(cfg, f_, member) and not extra
+                ctx.ob(rule, f_.ast, ok,
+                       "a component is given an observer exactly when it is not staged in (and finish() was not called on it)" if ok else
+                       "whether a component gets an observer before the stage is stopped depends on %s instead of 'not in comp_staged_in': a "
+                       "component whose last producer has just finished, but which the scheduler has not staged yet, is skipped; _stopComponents "
+                       "then finishes it, nobody observes that, it never enters comp_done and Controller.run() never returns"
+                       % (short(extra[0].ast, 60) if extra else "no membership test"),
+                       construct="%s <- comp not in comp_staged_in" % short(f_.ast, 60))
+
+
 HOPS = {"observe_on", "delay", "delay_with_mapper", "debounce", "throttle_first", "throttle_with_timeout", "throttle_with_mapper",
         "sample", "buffer", "buffer_with_time", "buffer_with_count", "buffer_with_time_or_count", "window", "window_with_time",
         "delay_subscription", "timeout"}
@@ -270,6 +321,9 @@ def run(ctx) -> None:
                                           "finishCalled at delivery time: the veto filter follows every operator that moves the "
                                           "notification to another scheduler/queue (or postMortemCheck re-tests it itself), so a "
                                           "notification queued before the stage was stopped cannot change a stopped component"),
+        ("C02.R11-observed-before-stopped", "when finishedCheck stops a stage it first gives an observer (_fake_finish_with_state subscribes "
+                                            "finishedCheck) to every component that is not staged in: nothing but 'not in comp_staged_in' and "
+                                            "'finish() not called yet' decides that, and the loop covers the collection that is then stopped"),
         ("C02.R7-shutdown-table", "aggregating consumer shuts down on any non-replicated SHUTDOWN input or when all replicated inputs are SHUTDOWN"),
     ]:
         ctx.rule(rid, text)
@@ -538,6 +592,7 @@ def run(ctx) -> None:
     # ------------------------------------------------ R8
     check_finish_handshake(ctx, wf)
     check_veto_at_delivery(ctx, ctl)
+    check_observed_before_stopped(ctx, ctl)
 
     # ------------------------------------------------ R6
     runf = ctl.func("Controller.run")
